@@ -31,6 +31,8 @@ type FakeCluster struct {
 	repl  map[int]int      // replica node index -> its master's index (listed in CLUSTER NODES)
 	Log   []string         // every command a node executed: "<node>:<cmd> <key>[ asked]"
 	Redir int              // MOVED / ASK replies sent so far
+	belief map[[2]int]int  // {node, slot} -> the node it wrongly believes to own the slot (a lagging view)
+	delay  map[int]time.Duration // node -> time it takes to answer a command
 }
 
 type FakeNode struct {
@@ -43,13 +45,31 @@ type FakeNode struct {
 	Up    bool
 }
 
-// SlotOf is the cluster's key → slot function (taken from the code under test; property C12 is about it).
+// SlotOf is the cluster's key → slot function, written from the Redis Cluster specification and independent of the
+// code under test: CRC16/XMODEM (polynomial 0x1021, initial value 0, no reflection) of the hash tag, modulo 16384.
 func SlotOf(key []byte) int {
-	return int(redis.VerifCrc16(redis.VerifHashtag(key))) & (redis.VerifSlotNum - 1)
+	k := key
+	if i := bytes.IndexByte(key, '{'); i >= 0 {
+		if j := bytes.IndexByte(key[i+1:], '}'); j > 0 {
+			k = key[i+1 : i+1+j]
+		}
+	}
+	var crc uint16
+	for _, b := range k {
+		crc ^= uint16(b) << 8
+		for i := 0; i < 8; i++ {
+			if crc&0x8000 != 0 {
+				crc = crc<<1 ^ 0x1021
+			} else {
+				crc <<= 1
+			}
+		}
+	}
+	return int(crc) % 16384
 }
 
 func NewFakeCluster(n int) (*FakeCluster, error) {
-	c := &FakeCluster{migr: map[int][2]int{}, repl: map[int]int{}}
+	c := &FakeCluster{migr: map[int][2]int{}, repl: map[int]int{}, belief: map[[2]int]int{}, delay: map[int]time.Duration{}}
 	for i := 0; i < n; i++ {
 		nd := &FakeNode{c: c, Idx: i, store: map[string][]byte{}, conns: map[net.Conn]struct{}{}}
 		ln, err := net.Listen("tcp", "127.0.0.1:0")
@@ -130,6 +150,28 @@ func (c *FakeCluster) Finalise(slot int) {
 	if ok {
 		c.SetOwner(slot, m[1])
 	}
+}
+
+// Believe makes node n answer MOVED <m> for a slot it does not own (its view of the layout lags).
+func (c *FakeCluster) Believe(n, slot, m int) { c.mu.Lock(); c.belief[[2]int{n, slot}] = m; c.mu.Unlock() }
+
+// Delay makes node n take d to answer each command.
+func (c *FakeCluster) Delay(n int, d time.Duration) { c.mu.Lock(); c.delay[n] = d; c.mu.Unlock() }
+
+// Readdress restarts node n on a new port: same node id, same data, new address.
+func (n *FakeNode) Readdress() error {
+	n.Down()
+	ln, err := net.Listen("tcp", "127.0.0.1:0")
+	if err != nil {
+		return err
+	}
+	n.c.mu.Lock()
+	n.Addr = ln.Addr().String()
+	n.ln = ln
+	n.Up = true
+	n.c.mu.Unlock()
+	go n.serve(ln)
+	return nil
 }
 
 // AddReplica lists node r as a replica of node m (it holds a copy of m's data when promoted).
@@ -314,6 +356,12 @@ func (n *FakeNode) handle(conn net.Conn) {
 		for i := range v.Array {
 			args[i] = v.Array[i].Text
 		}
+		n.c.mu.Lock()
+		d := n.c.delay[n.Idx]
+		n.c.mu.Unlock()
+		if d > 0 {
+			time.Sleep(d)
+		}
 		reply, nowAsking := n.exec(args, asking)
 		asking = nowAsking
 		if _, err := conn.Write(Wire(reply)); err != nil {
@@ -371,7 +419,11 @@ func (n *FakeNode) exec(args [][]byte, asking bool) (*redis.RespValue, bool) {
 		// importing and asked: served here
 	default:
 		c.Redir++
-		return errReply(fmt.Sprintf("MOVED %d %s", slot, c.Nodes[c.owner[slot]].Addr)), false
+		to := c.owner[slot]
+		if b, ok := c.belief[[2]int{n.Idx, slot}]; ok && b != n.Idx {
+			to = b
+		}
+		return errReply(fmt.Sprintf("MOVED %d %s", slot, c.Nodes[to].Addr)), false
 	}
 	entry := fmt.Sprintf("%d:%s %s", n.Idx, cmd, Hex(args[1]))
 	if asking {
@@ -536,6 +588,15 @@ func DialClient(addr string) (*Client, error) {
 	}
 	return &Client{C: c, dec: redis.VerifNewDecoder(c, 8192)}, nil
 }
+
+// Write sends one command without reading its reply.
+func (c *Client) Write(args ...[]byte) error {
+	_, err := c.C.Write(Wire(Bulks(args...)))
+	return err
+}
+
+// Reply reads one reply.
+func (c *Client) Reply() (*redis.RespValue, error) { return c.dec.Decode() }
 
 // Do sends one command and reads one reply.
 func (c *Client) Do(args ...[]byte) (*redis.RespValue, error) {
